@@ -29,6 +29,7 @@
 From MC Require Import Generated.
 From MC Require Import Model.Safe Model.ApplyLaws.
 From MC Require Import Proofs.SafeLemmas Proofs.C01Frame Proofs.C01Fixpoint Proofs.C01Quiescent Proofs.C01Proofs.
+From MC Require Import Proofs.ObjLemmas Proofs.C06Proofs Proofs.C01Converge.
 Local Open Scope string_scope.
 Local Open Scope list_scope.
 
@@ -303,3 +304,144 @@ Theorem C01_converges_per_child_partial :
   (exists m s s', In s' (cafter m 2 s) /\ cfinal m s' = false).
 Proof. exact C01_converges_per_child_partial. Qed.
 Print Assumptions C01_converges_per_child_partial.
+
+(* ------------------------------------------------------------------ *)
+(* 6. the per-child automaton tied to claim_decision / child_decision  *)
+(* ------------------------------------------------------------------ *)
+(* [child_sync c kc parent sel dm sv w]: what one sync with a fresh cache does to the
+   stored child w (None = absent) of the desired object JObj dm: claim_decision, then
+   child_decision on the object the claim handed over, each request answered by the
+   server model srv_create / srv_put (optimistic on resourceVersion) / srv_delete (uid
+   precondition) with the values sv the server assigns.  [abs parent dm w] is the
+   automaton state.  [cnext2] is [cnext] plus OrphanMatching -> Absent under Recreate
+   (FINDING: an adopted orphan that differs is deleted in the same sync). *)
+Theorem C01_child_simulation :
+  forall (c : ccfg) (kc : child_cfg) (parent : json) (sel : selector) (dm : amap),
+    is_deleting parent = false ->
+    self_wf (JObj dm) = true -> wf_json (JObj dm) = true -> desired_ok dm = true ->
+    sel_matches sel (get_labels (JObj dm)) = true ->
+    meta_objb (JObj dm) = true ->
+    forall m : cmethod, cm_of (meth c kc) = Some m ->
+    forall (sv : srv) (w : cw),
+      start_okb c parent sel dm sv w = true ->
+      inv parent sel dm (child_sync c kc parent sel dm sv w) = true /\
+      In (abs parent dm (child_sync c kc parent sel dm sv w)) (cnext2 m (abs parent dm w)) /\
+      ((m = MRecreate -> abs parent dm w <> OrphanMatching) ->
+       In (abs parent dm (child_sync c kc parent sel dm sv w)) (cnext m (abs parent dm w))).
+Proof. exact C01_child_simulation. Qed.
+Print Assumptions C01_child_simulation.
+
+Theorem C01_child_converges_partial :
+  forall (c : ccfg) (kc : child_cfg) (parent : json) (sel : selector) (dm : amap),
+    is_deleting parent = false ->
+    self_wf (JObj dm) = true -> wf_json (JObj dm) = true -> desired_ok dm = true ->
+    sel_matches sel (get_labels (JObj dm)) = true ->
+    meta_objb (JObj dm) = true ->
+    forall m : cmethod, cm_of (meth c kc) = Some m ->
+    forall (sv1 sv2 sv3 : srv) (rest : list srv) (w : cw),
+      start_okb c parent sel dm sv1 w = true ->
+      let w' := run_syncs c kc parent sel dm (sv1 :: sv2 :: sv3 :: rest) w in
+      inv parent sel dm w' = true /\
+      cfinal m (abs parent dm w') = true /\
+      (forall sv : srv, child_sync c kc parent sel dm sv w' = w').
+Proof. exact C01_child_converges_partial. Qed.
+Print Assumptions C01_child_converges_partial.
+
+(* what the final state means for the methods that permit changes *)
+Theorem C01_child_final_meaning :
+  forall (c : ccfg) (kc : child_cfg) (parent : json) (sel : selector) (dm : amap) (m : cmethod),
+    cm_of (meth c kc) = Some m ->
+    forall w : cw,
+      inv parent sel dm w = true -> cfinal m (abs parent dm w) = true -> m <> MOnDelete ->
+      exists (o : json) (n : amap),
+        w = Some o /\
+        claim_decision (get_uid parent) (is_deleting parent) sel o = ClKeep /\
+        apply_update (obj_map o) dm = Ok n /\ jeqb (JObj n) o = true /\
+        child_decision c kc parent (Some o) (JObj dm) = ActNone.
+Proof. exact C01_child_final_meaning. Qed.
+Print Assumptions C01_child_final_meaning.
+
+(* through the automaton of C01_converges_per_child_partial *)
+Theorem C01_child_run_in_automaton :
+  forall (c : ccfg) (kc : child_cfg) (parent : json) (sel : selector) (dm : amap),
+    is_deleting parent = false ->
+    self_wf (JObj dm) = true -> wf_json (JObj dm) = true -> desired_ok dm = true ->
+    sel_matches sel (get_labels (JObj dm)) = true ->
+    meta_objb (JObj dm) = true ->
+    forall m : cmethod, cm_of (meth c kc) = Some m ->
+    forall (svs : list srv) (w : cw),
+      match svs with [] => inv parent sel dm w | sv :: _ => start_okb c parent sel dm sv w end = true ->
+      (m = MRecreate -> abs parent dm w <> OrphanMatching) ->
+      inv parent sel dm (run_syncs c kc parent sel dm svs w) = true /\
+      In (abs parent dm (run_syncs c kc parent sel dm svs w)) (cafter m (List.length svs) (abs parent dm w)).
+Proof. exact C01_child_run_in_automaton. Qed.
+Print Assumptions C01_child_run_in_automaton.
+
+(* with the bound taken from C01_converges_per_child_partial itself *)
+Theorem C01_child_converges_by_automaton :
+  forall (c : ccfg) (kc : child_cfg) (parent : json) (sel : selector) (dm : amap),
+    is_deleting parent = false ->
+    self_wf (JObj dm) = true -> wf_json (JObj dm) = true -> desired_ok dm = true ->
+    sel_matches sel (get_labels (JObj dm)) = true ->
+    meta_objb (JObj dm) = true ->
+    forall m : cmethod, cm_of (meth c kc) = Some m ->
+    forall (svs : list srv) (w : cw) (n : nat),
+      List.length svs = (3 + n)%nat ->
+      match svs with [] => inv parent sel dm w | sv :: _ => start_okb c parent sel dm sv w end = true ->
+      (m = MRecreate -> abs parent dm w <> OrphanMatching) ->
+      cfinal m (abs parent dm (run_syncs c kc parent sel dm svs w)) = true.
+Proof. exact C01_child_converges_by_automaton. Qed.
+Print Assumptions C01_child_converges_by_automaton.
+
+(* the refined automaton keeps the bound *)
+Theorem C01_cnext2_bound :
+  forall m s0 s1 s2 s3,
+    In s1 (cnext2 m s0) -> In s2 (cnext2 m s1) -> In s3 (cnext2 m s2) -> cfinal m s3 = true.
+Proof. exact cnext2_three. Qed.
+Print Assumptions C01_cnext2_bound.
+
+(* ApplyUpdate keeps a metadata field neither d nor the last-applied record mentions *)
+Theorem C01_update_keeps_field :
+  forall (xm d n om dmeta : amap) (last : json) (f : string),
+    apply_update xm d = Ok n ->
+    alookup "metadata" xm = Some (JObj om) ->
+    get_last_applied xm = Ok last ->
+    nodup_str (akeys (nullify_last_applied d)) = true ->
+    alookup "metadata" (nullify_last_applied d) = Some (JObj dmeta) ->
+    ahas f dmeta = false ->
+    ahas f (obj_or_nil (jget "metadata" (obj_or_nil last))) = false ->
+    ~ In f object_meta_system_fields -> f <> "annotations" ->
+    mget (JObj n) f = mget (JObj xm) f.
+Proof. exact update_keeps_field. Qed.
+Print Assumptions C01_update_keeps_field.
+
+(* the server model stores bodies verbatim: that is the wire for float-free bodies (D17 otherwise) *)
+Theorem C01_wire_float_free : forall j : json, float_free j = true -> wire1 j = j.
+Proof. exact wire1_float_free. Qed.
+Print Assumptions C01_wire_float_free.
+
+Example C01_child_converges_example :
+  is_deleting ex_parent = false /\
+  self_wf (JObj ex_dm) = true /\ wf_json (JObj ex_dm) = true /\ desired_ok ex_dm = true /\
+  float_free (JObj ex_dm) = true /\
+  make_selector (ex_cfg "InPlace") ex_parent = Some ex_sel /\
+  sel_matches ex_sel (get_labels (JObj ex_dm)) = true /\
+  meta_objb (JObj ex_dm) = true /\
+  cm_of (meth (ex_cfg "InPlace") (ex_kc "InPlace")) = Some MInPlace /\
+  cm_of (meth (ex_cfg "Recreate") (ex_kc "Recreate")) = Some MRecreate /\
+  cm_of (meth (ex_cfg "OnDelete") (ex_kc "OnDelete")) = Some MOnDelete /\
+  start_okb (ex_cfg "InPlace") ex_parent ex_sel ex_dm (ex_sv "8") (Some ex_orphan) = true /\
+  start_okb (ex_cfg "InPlace") ex_parent ex_sel ex_dm (ex_sv "8") None = true /\
+  ex_trace "InPlace" (Some ex_orphan) = [OrphanMatching; OwnedDiffers; OwnedEqual; OwnedEqual] /\
+  ex_trace "InPlace" None = [Absent; OwnedEqual; OwnedEqual; OwnedEqual] /\
+  ex_trace "OnDelete" (Some ex_orphan) = [OrphanMatching; OwnedDiffers; OwnedDiffers; OwnedDiffers] /\
+  ex_trace "Recreate" (Some ex_orphan) = [OrphanMatching; Absent; OwnedEqual; OwnedEqual] /\
+  ~ In Absent (cnext MRecreate OrphanMatching).
+Proof. exact C01_child_converges_example. Qed.
+
+Example C01_child_converges_instance :
+  let w' := run_syncs (ex_cfg "InPlace") (ex_kc "InPlace") ex_parent ex_sel ex_dm
+                      [ex_sv "8"; ex_sv "9"; ex_sv "10"] (Some ex_orphan) in
+  cfinal MInPlace (abs ex_parent ex_dm w') = true /\
+  forall sv, child_sync (ex_cfg "InPlace") (ex_kc "InPlace") ex_parent ex_sel ex_dm sv w' = w'.
+Proof. exact C01_child_converges_instance. Qed.
